@@ -13,7 +13,7 @@ MANIFEST = {
         "technique": "Lean 4 proof over a checked-memory model of Unicode.hpp / String::fromHex / fromBase64 / integer conversions "
                      "(tables, masks, guard and encoder range tests regenerated from the sources by tools/gen_codec.py) + differential "
                      "correspondence of the compiled model with the real code under ASan/UBSan, incl. all 1,114,112 code points",
-        "text": "Theorems (all inputs, no bounds; Nstd/Codec/Props.lean, 25 obligations, none partial): toString(cp) = RFC 3629 encoding and "
+        "text": "Theorems (all inputs, no bounds; Nstd/Codec/Props.lean, 27 obligations, none partial): toString(cp) = RFC 3629 encoding and "
                 "fromString(toString(cp)) = cp for every cp < 0x110000 (range lemmas, no enumeration), also in front of arbitrary trailing "
                 "bytes; empty result above U+10FFFF; isValid = the structural well-formedness predicate for EVERY byte string and accepts every "
                 "concatenation of encoded code points; fromString/isValid never read outside the range they are given and length() never "
